@@ -7,6 +7,7 @@ CONSTANTS
   FixClose = 2
   MaxVer = 8
   AllowFail = FALSE
+  FixFail = TRUE
   QuiescentClose = FALSE
   Depth = 4
 SPECIFICATION GSpec
